@@ -431,6 +431,17 @@ func uniq(t string, i int) string {
 }
 
 // File renders a file from declarations.
+// GeneratedHeaders: what stands in front of the package clause of real generated files (round 12): protoc-gen-go's own
+// header with its versions list, the same behind a licence comment copied from the .proto (line comments and a block
+// comment, blank line in between), protoc-gen-go-grpc's, and a build constraint. Every byte of them is outside any tag.
+var GeneratedHeaders = []string{
+	"// Code generated by protoc-gen-go. DO NOT EDIT.\n// versions:\n// \tprotoc-gen-go v1.26.0\n// \tprotoc        v3.17.3\n// source: user.proto",
+	"// Copyright 2021 The Authors. 保留所有权利.\n// Licensed under the Apache License, Version 2.0\n\n// Code generated by protoc-gen-go. DO NOT EDIT.\n// versions:\n// \tprotoc-gen-go v1.28.1\n// \tprotoc        (unknown)\n// source: api/v1/user.proto",
+	"/*\n * Licence text @tag valid:\"required\"\n */\n\n// Code generated by protoc-gen-go. DO NOT EDIT.\n// versions:\n// \tprotoc-gen-go v1.26.0\n// \tprotoc        v3.17.3\n// source: user.proto\n",
+	"// Code generated by protoc-gen-go-grpc. DO NOT EDIT.\n// versions:\n// - protoc-gen-go-grpc v1.2.0\n// - protoc             v3.21.12\n// source: user.proto",
+	"//go:build !ignore\n// +build !ignore\n\n// Code generated by protoc-gen-go. DO NOT EDIT.\n// versions:\n// \tprotoc-gen-go v1.26.0\n// source: user.proto",
+}
+
 func File(header string, decls []string) []byte {
 	var b strings.Builder
 	if header != "" {
